@@ -3,7 +3,7 @@
    program and the state's own containers hold, [collect] frees what a reference-counting heap frees. *)
 From stdpp Require Import base list option numbers.
 From Incr.Model Require Import Base Live Engine Api.
-From Incr.Proofs Require Import Pres LiveProofs FrameRead Reads.
+From Incr.Proofs Require Import Pres LiveProofs FrameRead Reads Poisoned.
 
 (* after any collection, every object still allocated is held by the program (a node/var/observer
    handle, an exported node), by the state's containers (in-use observers, heap queues), by a pinned
@@ -31,6 +31,21 @@ Theorem C12_release_does_not_affect_reads :
     read_result (collect pins s).2 o = read_result s o.
 Proof. exact collect_read_frame. Qed.
 
+(* handles may be given up in any order: a sequence of drops — observers (last clone or not), variables,
+   node handles, the handles bind closures exported — never panics, whatever the state (before or after a
+   stabilise, or in the middle of a failed one) ... *)
+Theorem C12_dropping_handles_never_panics :
+  forall fuel st o s, is_drop_op o = true -> no_real_panic (step fuel st o s).1.
+Proof. exact drops_never_panic. Qed.
+
+(* ... and, in whatever order, leaves the read of every observer that is not itself being dropped as it was *)
+Theorem C12_dropping_handles_does_not_affect_reads :
+  forall fuel ops st s o ob,
+    Forall (fun op => is_drop_op op = true /\ op_target op <> Some o) ops ->
+    obss s !! o = Some ob -> is_Some (nodes s !! o_observing ob) ->
+    Forall (fun e => read_result e.2 o = read_result s o) (run fuel ops st s).
+Proof. exact run_drops_reads_frozen. Qed.
+
 (* non-vacuity: after the handle of a chain is dropped and its observer is gone, one stabilise later
    the whole chain is released, while the still-observed part stays *)
 Example C12_nonvacuous :
@@ -46,3 +61,5 @@ Print Assumptions C12_nothing_unreferenced_survives.
 Print Assumptions C12_no_dangling_reference.
 Print Assumptions C12_held_objects_survive.
 Print Assumptions C12_release_does_not_affect_reads.
+Print Assumptions C12_dropping_handles_never_panics.
+Print Assumptions C12_dropping_handles_does_not_affect_reads.
